@@ -147,18 +147,18 @@ class Run:
         if unknown:
             rdir = os.path.join(VERIF, "replay", self.prop)
             os.makedirs(rdir, exist_ok=True)
-            seen = set()
-            n = 0
+            seen = {}
             for v in unknown:
-                if v["mech"] in seen and n >= 5:
-                    continue
-                seen.add(v["mech"])
+                seen.setdefault(v["mech"], []).append(v)
+            n = 0
+            for mech, vs in sorted(seen.items(), key=lambda kv: -len(kv[1])):
+                v = vs[0]
                 path = os.path.join(rdir, "%d.json" % n)
                 with open(path, "w") as f:
-                    json.dump(dict(property=self.prop, seed=self.seed, tier=self.tier, **v), f, indent=1)
-                print("VIOLATION property=%s replay=%s  # %s: %s" % (self.prop, path, v["mech"], v["what"]))
+                    json.dump(dict(property=self.prop, seed=self.seed, tier=self.tier, occurrences=len(vs), **v), f, indent=1)
+                print("VIOLATION property=%s replay=%s  # [%d x] %s: %s" % (self.prop, path, len(vs), mech, v["what"]))
                 n += 1
-                if n >= 10:
+                if n >= 25:
                     break
             print("%s: %d violation(s) not covered by known_findings.json" % (self.prop, len(unknown)))
             return EXIT_VIOLATION
